@@ -2126,12 +2126,15 @@ func (e *Exec) call0(st *State, c *ssa.Call) string {
 				st.assume = append(st.assume, "false")
 			}
 			k := st.snaps["callno:"+fc.Name]
-			for i, a := range args { // arguments of the k-th call, for callarg()
+			for i, a := range args { // arguments of the k-th call, for callarg(); call number 0 names the latest call so far
 				st.snaps[fmt.Sprintf("arg:%s#%s.%d", key, k, i)] = a
+				st.snaps[fmt.Sprintf("arg:%s#0.%d", key, i)] = a
 			}
 			for i, part := range strings.Split(r, "\x00") {
 				if part != "" && i < c.Call.Signature().Results().Len() {
-					st.snaps[fmt.Sprintf("res:%s#%s.%d", key, k, i)] = e.sorts.SortOf(c.Call.Signature().Results().At(i).Type()) + "\x01" + part
+					v := e.sorts.SortOf(c.Call.Signature().Results().At(i).Type()) + "\x01" + part
+					st.snaps[fmt.Sprintf("res:%s#%s.%d", key, k, i)] = v
+					st.snaps[fmt.Sprintf("res:%s#0.%d", key, i)] = v
 				}
 			}
 			return r
